@@ -4,8 +4,24 @@
 use crate::verif_models::fs as gfs;
 use crate::verif_models::fmtm;
 
-fn mk_dump(cap: usize) -> UnspentCsvDump {
-    UnspentCsvDump { dump_folder: PathBuf::new() /* empty: [measured] PathBuf::join on a non-empty base runs std's component parser over heap bytes and dominates symbolic execution */, writer: BufWriter::with_capacity(cap, gfs::File::ghost(3)), unspents: HashMap::new(), start_height: 0, tx_count: 0, in_count: 0, out_count: 0 }
+pub fn mk_dump(cap: usize) -> UnspentCsvDump {
+    unsafe {
+        let mut x = core::mem::MaybeUninit::<UnspentCsvDump>::zeroed();
+        let p = x.as_mut_ptr();
+        core::ptr::write(core::ptr::addr_of_mut!((*p).dump_folder), PathBuf::new());
+        core::ptr::write(core::ptr::addr_of_mut!((*p).writer), BufWriter::with_capacity(cap, gfs::File::ghost(3)));
+        core::ptr::write(core::ptr::addr_of_mut!((*p).unspents), HashMap::new());
+        core::ptr::write(core::ptr::addr_of_mut!((*p).start_height), 0u64);
+        core::ptr::write(core::ptr::addr_of_mut!((*p).tx_count), 0u64);
+        core::ptr::write(core::ptr::addr_of_mut!((*p).in_count), 0u64);
+        core::ptr::write(core::ptr::addr_of_mut!((*p).out_count), 0u64);
+        x.assume_init()
+    }
+}
+pub fn unspent_len(d: &UnspentCsvDump) -> usize { d.unspents.len() }
+/// (height, value, first address byte) of the entry with this key
+pub fn unspent_get(d: &UnspentCsvDump, k: &Vec<u8>) -> Option<(u64, u64, u8)> {
+    d.unspents.get(k).map(|u| (u.block_height, u.value, u.address.as_bytes()[0]))
 }
 fn key(b: u8, idx: u32) -> Vec<u8> {
     let mut k = vec![0u8; 36];
